@@ -46,6 +46,10 @@ def herm_measure(rec, cls, detail, A, lam_exp):
     for i in range(n):
         D[i, i, 0] = float(np.real(ev[i]))
     rec.units(t, "AV_eq_VLambda", units(ofro(omul(A, Vf) - omul(Vf, D)), max(scale, 1e-300), 4 * n * n))
+    # the library's own verifier agrees with the oracle residual (mechanism level, recorded as M: clause)
+    vr = L.eigen.verify_eigendecomposition(Aq.copy(), ev, np.asarray(Vq, dtype=np.quaternion))
+    orc = max([ofro(omul(A, Vf[:, i:i + 1]) - Vf[:, i:i + 1] * float(np.real(ev[i]))) for i in range(n)] + [0.0])
+    rec.flag(t, "M:LibraryVerifierAgrees", bool(abs(float(vr["max_error"]) - orc) <= 1e-9 * max(scale, 1.0) and bool(vr["success"]) == bool(vr["max_error"] < 1e-6)))
     # eigenvalues-only / eigenvectors-only entry points agree
     ev2 = np.asarray(L.eigen.quaternion_eigenvalues(Aq.copy()))
     V2 = q_to_float(np.asarray(L.eigen.quaternion_eigenvectors(Aq.copy()), dtype=np.quaternion))
